@@ -2,6 +2,7 @@
    line:  mpo L n mode | rho0 | D_0 … D_n | T_0 | … | T_{n-1} | cap_0 | … | cap_n | A_0 | B_0 | … | A_{n-1} | B_{n-1} | pre_0 | … | pre_n
           mode = "mpo"   : records of steps 0..n by the step recursion (`mpoRecord`)
           mode = "dense" : record of step n only, through `denseRecord (densePT …)`
+          mode = "densept": followed by "| paths p… | paths p…": `densePT` (closed at n) on each path
    T_k is the flat array of shape (D_k, D_{k+1}, L, L) (axes of get_mpo_tensor). -/
 import OQuPyVerif.Model.ProtoQI
 import OQuPyVerif.Model.ProcessTensor
@@ -26,7 +27,14 @@ def run (ws : List String) : Option String := do
   let A : Nat → Nat → Nat → QI := fun k => tab2 L (ABs.getD (2*k) #[])
   let B : Nat → Nat → Nat → QI := fun k => tab2 L (ABs.getD (2*k+1) #[])
   let pre : Nat → Nat → Nat → QI := fun k => tab2 L (pres.getD k #[])
-  if mode == "dense" then
+  if mode == "densept" then
+    -- values of the dense process tensor (closed at step n) on the listed paths
+    let pathSecs := ((secs.drop (5+5*n)).dropWhile (fun s => s.head? != some "paths")).map (fun s => s.drop 1)
+    let vals := pathSecs.map (fun pw => match pw.mapM String.toNat? with
+      | some p => showQI (densePT D T cap n p)
+      | none => "bad-path")
+    pure (" ".intercalate vals)
+  else if mode == "dense" then
     let st := (List.range L).map (fun s' =>
       denseRecord L (densePT D T cap) A B (pre n) (tab1 rho0) n s')
     pure (" ".intercalate (st.map showQI))
